@@ -941,6 +941,7 @@ package query
 //@   ghostset after call (*query.ReferenceScope).ReplaceTemporaryTable#*: published = published + 1
 //@   assert after call (query.ViewMap).Load#*: [statement-never-takes-the-cached-view-itself] false
 //@ func AddColumns
+//@   assert before call query.LoadViewFromTableIdentifier#1: [table-is-loaded-for-update] arg3
 //@   property C14 C08 C05
 //@   assert after call EvaluateSequentially#*: [defaults-are-evaluated-against-the-old-header] base(view.Header) != base(header)
 //@   ownwrites E:value.Primary# E:parser.QueryExpression# E:parser.Statement#
@@ -949,6 +950,7 @@ package query
 //@   ghostset after call (*query.ReferenceScope).ReplaceTemporaryTable#*: published = published + 1
 //@   assert after call (query.ViewMap).Load#*: [statement-never-takes-the-cached-view-itself] false
 //@ func DropColumns
+//@   assert before call query.LoadViewFromTableIdentifier#1: [table-is-loaded-for-update] arg3
 //@   property C14 C08
 //@   ownwrites E:value.Primary# E:parser.QueryExpression# E:parser.Statement#
 //@   ensures [failed-statement-publishes-nothing] result2 != nil ==> published == old(published)
@@ -956,6 +958,7 @@ package query
 //@   ghostset after call (*query.ReferenceScope).ReplaceTemporaryTable#*: published = published + 1
 //@   assert after call (query.ViewMap).Load#*: [statement-never-takes-the-cached-view-itself] false
 //@ func RenameColumn
+//@   assert before call query.LoadViewFromTableIdentifier#1: [table-is-loaded-for-update] arg3
 //@   property C14 C08
 //@   ownwrites E:value.Primary# E:parser.QueryExpression# E:parser.Statement#
 //@   ensures [failed-statement-publishes-nothing] result1 != nil ==> published == old(published)
